@@ -338,7 +338,7 @@ def subchecks(tier):
             prop,
             quick=300,
             thorough=20000,
-            floors={"recompute_gap": 0.033, "session_satisfied_mid_stay": 0.103, "last_applied_nonempty": 0.3, "has_active_sessions": 0.454, "mr_None": 0.1, "explicit_early_unplug": 0.06},
+            floors={"recompute_gap": 0.033, "session_satisfied_mid_stay": 0.089, "last_applied_nonempty": 0.3, "has_active_sessions": 0.454, "mr_None": 0.1, "explicit_early_unplug": 0.06},
         )
     ]
 
